@@ -208,6 +208,45 @@ func TestVerifC05Nominate(t *testing.T) {
 		}
 
 		sawShortcut, sawShortcutOnHeld, sawOnRes, sawSecondCycleSameRes, sawUnresolvable := false, false, false, false, false
+		sawUnreserveBeforePreBind, sawUnreserveAfterPreBind := false, false
+		unreserved := map[types.UID]bool{}
+		// the ledger clause over the pods' own cycles: after every cycle and event, what each reservation reports as assigned and
+		// allocated equals the pods the model has on it (assumed by Reserve and not rolled back by Unreserve / deleted)
+		ledger := func() bool {
+			for _, r := range ress {
+				rInfo := pl.reservationCache.reservationInfos[r.uid]
+				if !r.inCache || rInfo == nil {
+					continue
+				}
+				for _, uid := range c05SortedUIDs(rInfo.AssignedPods) {
+					if _, ok := r.pods[uid]; !ok {
+						sig := "cycle:ledger-holds-unassigned-pod"
+						if unreserved[uid] {
+							sig = "cycle:unreserved-pod-still-in-ledger"
+						}
+						return c.Violation(t, sig, "reservation %s still lists pod %s (ledger %v, model %v); history=%v", r.uid, uid, c05SortedUIDs(rInfo.AssignedPods), c05SortedUIDs(r.pods), hist)
+					}
+				}
+				want := map[corev1.ResourceName]int64{}
+				for uid, req := range r.pods {
+					if _, ok := rInfo.AssignedPods[uid]; !ok {
+						return c.Violation(t, "cycle:ledger-misses-assigned-pod", "reservation %s does not list pod %s (ledger %v, model %v); history=%v", r.uid, uid, c05SortedUIDs(rInfo.AssignedPods), c05SortedUIDs(r.pods), hist)
+					}
+					for d, v := range req {
+						if r.names[d] {
+							want[d] += c05Milli(d, v)
+						}
+					}
+				}
+				for _, d := range []corev1.ResourceName{corev1.ResourceCPU, corev1.ResourceMemory} {
+					q := rInfo.Allocated[d]
+					if q.MilliValue() != want[d] {
+						return c.Violation(t, "cycle:allocated-ne-sum-of-assigned", "reservation %s reports allocated %s=%d milli, assigned pods %s sum to %d milli; history=%v", r.uid, d, q.MilliValue(), c05PodsStr(r.pods), want[d], hist)
+					}
+				}
+			}
+			return false
+		}
 		dead := false
 
 		schedule := func(t *rapid.T) {
@@ -394,12 +433,25 @@ func TestVerifC05Nominate(t *testing.T) {
 				if p.bound {
 					return
 				}
+				// The cycle aborts either before this plugin's PreBind (a later Reserve plugin, Permit or an earlier PreBind plugin
+				// failed) or after it (bind failed). Alternating on the history length keeps the draw sequence of the test unchanged.
+				afterPreBind := len(hist)%2 == 1
+				if afterPreBind {
+					if st := pl.PreBind(ctx, p.state, p.obj, p.node); !st.IsSuccess() {
+						afterPreBind = false
+					}
+				}
 				pl.Unreserve(ctx, p.state, p.obj, p.node)
 				if r := byUID[p.onRes]; r != nil && r.inCache {
 					delete(r.pods, p.uid)
 				}
+				if p.onRes != "" {
+					unreserved[p.uid] = true
+					sawUnreserveAfterPreBind = sawUnreserveAfterPreBind || afterPreBind
+					sawUnreserveBeforePreBind = sawUnreserveBeforePreBind || !afterPreBind
+				}
 				p.settled = true
-				logf("pod %s unreserved", p.uid)
+				logf("pod %s unreserved (after PreBind: %v)", p.uid, afterPreBind)
 			case kind == 4 && len(open) > 0: // a bound pod goes away
 				p := open[rapid.IntRange(0, len(open)-1).Draw(t, "pod")]
 				if !p.bound {
@@ -432,12 +484,16 @@ func TestVerifC05Nominate(t *testing.T) {
 		nCycles := rapid.IntRange(2, 6).Draw(t, "cycles")
 		for i := 0; i < nCycles && !dead; i++ {
 			schedule(t)
-			if dead {
+			if dead || ledger() {
+				dead = true
 				break
 			}
 			nEv := rapid.SampledFrom([]int{0, 0, 1, 1, 2}).Draw(t, "eventsBetween")
-			for j := 0; j < nEv; j++ {
+			for j := 0; j < nEv && !dead; j++ {
 				event(t)
+				if ledger() {
+					dead = true
+				}
 			}
 		}
 
@@ -447,6 +503,8 @@ func TestVerifC05Nominate(t *testing.T) {
 		c.ClassIf(sawShortcutOnHeld, "affinity-one-matched-already-holding-a-pod")
 		c.ClassIf(sawSecondCycleSameRes, "reservation-reused-by-later-pod")
 		c.ClassIf(sawUnresolvable, "prefilter-rejected")
+		c.ClassIf(sawUnreserveBeforePreBind, "reserved-on-reservation-then-unreserve-before-prebind")
+		c.ClassIf(sawUnreserveAfterPreBind, "reserved-on-reservation-then-prebind-then-unreserve")
 		if sawShortcut {
 			c.NonTrivial(hist)
 		}
